@@ -822,10 +822,7 @@ VH_TARGET(ratio_decision, 4,
       sdkt::Sampler *s = w == 0 ? slo.get() : shi.get();
       double r         = w == 0 ? rlo : rhi;
       if (!s)
-      {
-        dec[w] = false;  // the constructor rejected an out-of-range ratio: nothing is sampled
-        continue;
-      }
+        continue;  // the constructor rejected an out-of-range ratio: nothing to judge
       sdkt::SamplingResult res = call(*s, no_parent, id, plain);
       bool a                   = res.IsSampled();
       dec[w]                   = a;
@@ -861,6 +858,8 @@ VH_TARGET(ratio_decision, 4,
                                                      << dname(res4.decision));
       }
     }
+    if (!slo || !shi)
+      continue;
     // raising the ratio only adds traces
     VH_CHECK(c, !dec[0] || dec[1],
              "trace id " << show_id(id) << " is sampled at ratio " << hexf(rlo) << " but not at the larger ratio "
@@ -925,6 +924,11 @@ VH_TARGET(ratio_sweep, 2,
   bool threw_lo = false, threw_hi = false;
   std::unique_ptr<sdkt::Sampler> slo = make_ratio(rlo, false, &threw_lo);
   std::unique_ptr<sdkt::Sampler> shi = make_ratio(rhi, true, &threw_hi);
+  if (!slo || !shi)
+  {
+    c.tag("ctor-rejected-out-of-range");
+    return;  // the constructor rejected an out-of-range ratio (documented std::invalid_argument)
+  }
   u64 centre  = rd.coin() ? boundary_of(rhi) : boundary_of(rlo);
   unsigned j  = static_cast<unsigned>(rd.weighted({6, 2, 2, 2, 1, 1, 1, 1, 1, 1, 1, 1, 1, 1, 1}));
   u64 tail    = rd.coin() ? rd.u64() : 1;
@@ -944,8 +948,8 @@ VH_TARGET(ratio_sweep, 2,
     if (have_prev && x == prev_x)
       continue;  // saturated at an end of the id space
     api::TraceId id = make_trace_id(x, tail);
-    bool a = slo ? call(*slo, no_parent, id, plain).IsSampled() : false;
-    bool b = shi ? call(*shi, no_parent, id, plain).IsSampled() : false;
+    bool a = call(*slo, no_parent, id, plain).IsSampled();
+    bool b = call(*shi, no_parent, id, plain).IsSampled();
     for (int w = 0; w < 2; ++w)
     {
       double r  = w ? rhi : rlo;
